@@ -134,8 +134,10 @@ GList(s, tape, p) ==
   IF IsSome(s.elems)
   THEN LET els == Get(s.elems)
            g == GenEach(Concrete(els), 1, tape, p, <<>>)
-           want == IF IsSome(s.len) THEN IntOf(Get(s.len)) ELSE 0
-       IN  \* repaired code: `...` stands for arbitrary elements, padded with None up to len
+           want == IF IsSome(s.len) THEN IntOf(Get(s.len))
+                   ELSE IF IsSome(s.min_len) THEN IntOf(Get(s.min_len)) ELSE 0
+       IN  \* repaired code: `...` stands for arbitrary elements, padded with None up to len / min_len
+           \* (a min_len above the concrete elements is not declarable; substitution produces it)
            IF ~g.ok \/ DEV_ListEllipsisLenIgnored \/ Len(g.v.items) >= want THEN g
            ELSE LET pad == [j \in 1..(want - Len(g.v.items)) |-> VNone]
                 IN  GOk(VList(IF IsEll(els[Len(els)]) THEN g.v.items \o pad ELSE pad \o g.v.items), g.p)
